@@ -1,7 +1,9 @@
 //! vh — verification harness for sentinel-rust. Drivers, projections and loggers only:
 //! every expected value comes from TLC.
+mod gens;
 mod stat;
 mod util;
+mod world;
 
 use util::*;
 
@@ -41,6 +43,30 @@ fn main() {
             let kmax = a.num("kmax", 6);
             let vals: Vec<u64> = (0..=a.num("jmax", 24)).collect();
             out.put_all(&stat::exec(&stat::grid(kmax, &vals)));
+            println!("events={}", out.lines);
+            out.finish();
+        }
+        "world-replay" => {
+            let mut out = Out::create(a.get("out"));
+            let mut w = world::World::new();
+            for b in read_behaviours(a.get("in")) {
+                out.put_all(&w.exec(&b));
+            }
+            println!("events={}", out.lines);
+            out.finish();
+        }
+        "world-drive" => {
+            let mut rng = rng(a.num("seed", 1));
+            let mut out = Out::create(a.get("out"));
+            let mut w = world::World::new();
+            let len = a.num("len", 60) as usize;
+            for _ in 0..a.num("hist", 100) {
+                let h = match a.get("prop") {
+                    "c01" => gens::c01(&mut rng, len),
+                    p => panic!("no generator for {}", p),
+                };
+                out.put_all(&w.exec(&h));
+            }
             println!("events={}", out.lines);
             out.finish();
         }
